@@ -122,3 +122,13 @@ def replay(case):
     if "law_cfg" in case:
         return markov.law_replay(case)
     return markov.replay_walk(case)
+
+
+def research(case):
+    """Minimisation support: fresh seeded walks on a (reduced) case."""
+    c = {k: v for k, v in case.items() if k != "prefix"}
+    for s in range(6):
+        v, _ = markov.run_walk(c, random.Random(s), 20, {}, set())
+        if v:
+            return v
+    return []
